@@ -727,7 +727,9 @@ func TestC11(t *testing.T) {
 	longCases := []LongCase{{TLS: true, PauseS: 6}, {TLS: false, PauseS: 6}, {TLS: false, PauseS: 6, AtBoundary: true}}
 	if rec.Thorough() && ev.Shard() <= 1 {
 		longCases = append(longCases, LongCase{TLS: true, PauseS: 12}, LongCase{TLS: true, PauseS: 35}, LongCase{TLS: false, PauseS: 35}, LongCase{TLS: true, PauseS: 65},
-			LongCase{TLS: false, PauseS: 35, AtBoundary: true}, LongCase{TLS: true, PauseS: 65, AtBoundary: true})
+			LongCase{TLS: false, PauseS: 35, AtBoundary: true}, LongCase{TLS: true, PauseS: 65, AtBoundary: true},
+			// beyond the usual idle timeouts of 60, 90 and 120 s
+			LongCase{TLS: false, PauseS: 95, AtBoundary: true}, LongCase{TLS: true, PauseS: 95}, LongCase{TLS: false, PauseS: 125}, LongCase{TLS: true, PauseS: 125, AtBoundary: true})
 	}
 	longFails := make([]*ev.Failure, len(longCases))
 	var lw sync.WaitGroup
